@@ -43,6 +43,23 @@ def _worker(job):
 
     assert os.path.realpath(sgs.__file__).startswith(os.path.realpath(job["src"])), sgs.__file__
     src_file = sgs.GetSpaceGroup.__code__.co_filename
+    # code objects whose line events are pre-emption points: the five functions and every code object nested in
+    # them (generator expressions, lambdas, comprehensions) — a publish step fed by a generator runs Python
+    # frames inside dict.update, so the publish window has pre-emption points of its own
+    traced_codes = set()
+
+    def _collect(co):
+        if co in traced_codes:
+            return
+        traced_codes.add(co)
+        for c in co.co_consts:
+            if hasattr(c, "co_code"):
+                _collect(c)
+
+    for _n in TRACED_FUNCS:
+        _f = getattr(sgs, _n, None)
+        if _f is not None and hasattr(_f, "__code__"):
+            _collect(_f.__code__)
     SGL = list(sgs.SpaceGroupList)
     pos_of = {id(g): i for i, g in enumerate(SGL)}
     bynum = {}
@@ -180,7 +197,7 @@ def _worker(job):
             if self.free:
                 return None
             co = frame.f_code
-            if co.co_filename == src_file and co.co_name in TRACED_FUNCS:
+            if co in traced_codes or (co.co_filename == src_file and co.co_name in TRACED_FUNCS):
                 return self._local
             return None
 
@@ -518,8 +535,19 @@ def replay(path):
     r = json.load(open(path))
     s = r.get("schedule")
     if not s:
-        print("no schedule in replay (proof-obligation / translator record): %s" % r.get("what"))
-        return 1
+        # translator / proof-obligation records: re-decide on the tree under examination
+        sys.path.insert(0, VERIF)
+        from translate import protocol
+
+        rep = protocol.main(os.path.join(LEAN, "DS", "Gen"), common.REPO)
+        bad = [t for t in ("id", "hash") if rep[t]["protocol"] != "publish" or rep[t]["reader_shape"] != "ensureFirst"]
+        for t in ("id", "hash"):
+            print("%s: protocol %s (%s), readers %s" % (rep[t]["table"], rep[t]["protocol"], rep[t]["why"], rep[t]["reader_shape"]))
+        if r.get("key") == "lean-build" and not bad:
+            okb, log, failed = common.lake_build(["DS.Props.C19"])
+            print("lake build DS.Props.C19:", "ok" if okb else "FAILED %r" % failed)
+            return 0 if okb else 1
+        return 1 if bad else 0
     meta, runs = run_jobs([s], nproc=1)
     bad = 0
     for c, res in zip(s["threads"], runs[0]["results"]):
